@@ -100,6 +100,8 @@ def plan_frame(rng, layer, base_ids, kind, bc, special_id=None):
         ids.pop(rng.randrange(len(ids)))
     elif kind == "extra-lane":
         pool = [0x20 + l for l in range(9)] if ib else sorted(set(sum(ML_SETS + OL_SETS, [])))
+        if layer >= 5 and 0x58 in ids:
+            pool = pool + [0x5F, 0x5F, 0x5F]      # input 7 of the last connector: reported at the word ([E73]), and one lane too many
         extra = [x for x in pool if x not in ids]
         ids.insert(rng.randrange(len(ids) + 1), rng.choice(extra))
     elif kind == "wrong-group" and ib:
@@ -229,7 +231,7 @@ def oracle_frame(layer, lanes, known_fatal, custom):
 
 
 class PlannedLink(streams.Link):
-    def __init__(self, rng, link_id, layer, stave, fmt, plans, style):
+    def __init__(self, rng, link_id, layer, stave, fmt, plans, style, omit=None):
         super().__init__(rng, link_id, layer, stave, fmt=fmt, version=7, stave_level=True)
         self.plans = list(plans)
         self.style = style
@@ -238,6 +240,10 @@ class PlannedLink(streams.Link):
         for lanes in plans:
             for idb, _ in lanes:
                 mask |= 1 << lane_number(idb, layer <= 2)
+        if omit is not None:
+            # the IHW does not list a lane that sends data: each of its words is reported ([E71] lane not active), the readout
+            # frame still carries the lane -- its verdict is the one of the lanes present (seed C13-G)
+            mask &= ~(1 << lane_number(omit, layer <= 2))
         self.lanes_mask = mask or self.lanes_mask
 
     def frame_words(self, _bc):
@@ -366,9 +372,13 @@ def run(tier, seed):
         fmt = rng.choice([0, 2])
         variants = []
         vseed = rng.randrange(1 << 30)
+        sending = sorted(set(idb for lanes in plans for idb, _ in lanes))
+        omit = rng.choice(sending) if (not ib and sending and rng.random() < 0.25) else None
+        if omit is not None:
+            kinds.append("ihw-omits-lane-%02X" % omit)
         for style in (0, 1, 2):
             lrng = random.Random(vseed)      # same packet structure decisions where possible
-            link = PlannedLink(lrng, rng.randrange(12) if style == 0 else variants[0]["link"], layer, 5, fmt, plans, style)
+            link = PlannedLink(lrng, rng.randrange(12) if style == 0 else variants[0]["link"], layer, 5, fmt, plans, style, omit=omit)
             if style:
                 link.fee, link.orbit = variants[0]["fee"], variants[0]["orbit"]
             fee0, orbit0 = link.fee, link.orbit
